@@ -16,6 +16,8 @@ import (
 )
 
 func runCase(c chainsim.Case, rep chainsim.Reporter, scratch string) {
+	// Witness case of the listed finding: the genesis document carries a CHURP instance.
+	chainsim.KeyManagerGenesisChurp = c.Mode == "genesis-churp"
 	rm := &chainsim.RegistryMonitor{Rep: rep}
 	rec := &chainsim.Recorder{TxSubs: []chainsim.TxMonitor{rm}}
 	km := &chainsim.KeyManagerMonitor{Rep: rep, Sig: "c17/keymanager"}
@@ -63,7 +65,10 @@ func main() {
 		Cases: func(r *evid.Run) []chainsim.Case {
 			cs := chainsim.StdCases(r.Seed, r.Pick(192, 2400), r.Pick(60, 120), []string{"registry", "runtime", "registry", "election", "default"})
 			// Key manager runtime, key manager nodes and CHURP stake claims.
-			return chainsim.WithExtraCases(cs, r.Seed, r.Pick(16, 200), "keymanager")
+			cs = chainsim.WithExtraCases(cs, r.Seed, r.Pick(16, 200), "keymanager")
+			// Start-up witness of the listed finding c17/missing-stake-claim/churp-instance-of-the-genesis-document
+			// (fixed seed: independent of VERIF_SEED; last case, so the other cases keep their indices).
+			return append(cs, chainsim.Case{Index: len(cs), Seed: 5, Profile: "keymanager", Blocks: 8, Mode: "genesis-churp"})
 		},
 		RunCase: runCase,
 		Floor:   10,
